@@ -55,6 +55,9 @@ inductive Obs where
   | tr (b : Bool) (t : Nat)
   /-- Switch only: `set_on()` / `set_off()` -/
   | api (b : Bool) (t : Nat)
+  /-- a telegram on the device's group address that the device must ignore: a payload its DPT cannot decode
+  (`RemoteValue.process` returns `False`) or a GroupValueRead -/
+  | ig (t : Nat)
   | out (o : Out)
   /-- state sample at a quiescent instant: `state`, `counter` -/
   | q (st : Option Bool) (n : Nat) (t : Nat)
@@ -63,7 +66,7 @@ inductive Obs where
   deriving DecidableEq, Repr
 
 def Obs.time : Obs → Nat
-  | .tw _ t | .tr _ t | .api _ t | .q _ _ t | .fin t => t
+  | .tw _ t | .tr _ t | .api _ t | .ig t | .q _ _ t | .fin t => t
   | .out o => o.time
 
 structure St where
@@ -210,6 +213,7 @@ def inputReaction (c : Cfg) (s : St) : Obs → Option (St × List Out)
   | .tr v t => some (if c.switch then switchProcess c s v t else sensorResponse c s v t)
   | .api v t =>
     if c.switch then some ((switchProcess c s v t).1, .bw v t :: (switchProcess c s v t).2) else none
+  | .ig _ => some (s, [])
   | _ => none
 
 /-- Samples and the end marker: taken at quiescent instants; a sample must agree with the model. -/
@@ -299,6 +303,7 @@ def parseObs (s : String) : Option Obs :=
   | ["tw", b, t] => do pure (.tw (← parseBool b) (← t.toNat?))
   | ["tr", b, t] => do pure (.tr (← parseBool b) (← t.toNat?))
   | ["api", b, t] => do pure (.api (← parseBool b) (← t.toNat?))
+  | ["ig", t] => do pure (.ig (← t.toNat?))
   | ["cb", st, n, t] => do pure (.out (.cb (← parseSt st) (← n.toNat?) (← t.toNat?)))
   | ["bw", b, t] => do pure (.out (.bw (← parseBool b) (← t.toNat?)))
   | ["q", st, n, t] => do pure (.q (← parseSt st) (← n.toNat?) (← t.toNat?))
